@@ -23,6 +23,7 @@ TICKED = {
     ('pytoniq_core.boc.cell', 'Cell.order'), ('pytoniq_core.boc.cell', 'Cell.to_boc'), ('pytoniq_core.boc.cell', 'Cell.serialize'),
     ('pytoniq_core.boc.cell', 'Cell.calculate_hashes'), ('pytoniq_core.boc.cell', 'Cell.resolve_mask'),
     ('pytoniq_core.boc.cell', 'Cell.get_representation'), ('pytoniq_core.boc.cell', 'Cell.__eq__'), ('pytoniq_core.boc.cell', 'Cell.__hash__'),
+    ('pytoniq_core.boc.cell', 'Cell.calculate_representation_hash'),
     ('pytoniq_core.boc.deserialize', 'Boc.deserialize'), ('pytoniq_core.boc.deserialize', 'Boc.deserialize_cell'),
     ('pytoniq_core.boc.deserialize', 'Boc.deserialize_boc_header'),
     ('pytoniq_core.tl.generator', 'TlSchemas.deserialize'), ('pytoniq_core.tl.generator', 'TlSchemas.serialize_field'),
@@ -174,6 +175,15 @@ def cell_work(w, type_, kids):
     ticks = w.tick_count('Cell.calculate_hashes:loop') + w.tick_count('Cell.resolve_mask:loop')
     w.claim('constructed', k == 'ok')
     w.claim('constant work per cell', ticks <= 4 + 4 * (1 + 2 * len(kids)))
+    if k == 'ok' and type_ == -1:
+        # the explicit recomputation uses the children's CACHED hashes and depths: it never descends (the children here are
+        # abstract - only their cached fields exist - so any walk below them leaves the contract)
+        _reset(w)
+        k2, h2 = call(c.calculate_representation_hash)
+        w.claim(f'calculate_representation_hash() does not raise ({h2 if k2 != "ok" else ""})', k2 == 'ok')
+        w.claim('calculate_representation_hash(): one representation, one pass over the direct children',
+                w.tick_count('Cell.get_representation:call') <= 1 and w.tick_count('Cell.get_representation:loop') <= len(kids)
+                and w.tick_count('Cell.calculate_representation_hash:call') <= 1)
 
 
 # ---- dictionary label parse -------------------------------------------------------------------------------------------
@@ -405,7 +415,9 @@ def twins(w):
     def total():
         return sum(v for k, v in loader.GLOBAL_TICKS.items() if k.startswith('Cell.'))
     steps = [('a == b', lambda: a == b), ('hash(a) == hash(b)', lambda: hash(a) == hash(b)), ('order', lambda: root.order()),
-             ('to_boc', lambda: root.to_boc()), ('set of both twins', lambda: len({a, b}))]
+             ('to_boc', lambda: root.to_boc()), ('set of both twins', lambda: len({a, b})),
+             ('calculate_representation_hash', lambda: root.calculate_representation_hash()),
+             ('get_representation', lambda: root.get_representation())]
     data = None
     for nm, fn in steps:
         loader.GLOBAL_TICKS.clear()
